@@ -240,3 +240,43 @@ __CPROVER_ensures(gh_allocs == __CPROVER_old(gh_allocs))
 ;
 void h_mxaw_sync(void) { MXAW *a; mxaw_sync(a); __CPROVER_assert(0, "SENTINEL reachable"); }
 #endif
+
+/* ---- remaining glue of the blocking style: lock() hands out an awaiter of THIS mutex; wait() = sync() then the ownership of the awaited
+ * mutex; ownership(co_awaiter&&) = wait(); moving an ownership empties the source (one owner object at a time) */
+#ifdef CV_HAS_mx_lock
+void mx_lock(MXAW *ret, MX *this_)
+__CPROVER_requires(cv_exc_pending == 0 && __CPROVER_is_fresh(ret, sizeof(*ret)))
+__CPROVER_assigns(__CPROVER_object_whole(ret))
+__CPROVER_ensures(cv_exc_pending == 0 && ret->_owner == this_ && gh_allocs == __CPROVER_old(gh_allocs))
+;
+void h_mx_lock(void) { MXAW *r; MX *m; mx_lock(r, m); __CPROVER_assert(0, "SENTINEL reachable"); }
+#endif
+#ifdef CV_HAS_mxaw_wait
+int gh_w_sync_calls; void *gh_w_sync_this;
+#ifdef CV_HAS_w_sync_stub
+void w_sync_stub(MXAW *a) { gh_w_sync_calls++; gh_w_sync_this = a; }
+#endif
+void mxaw_wait(OWNT *ret, MXAW *this_)
+__CPROVER_requires(cv_exc_pending == 0 && gh_w_sync_calls == 0 && __CPROVER_is_fresh(ret, sizeof(*ret)) && __CPROVER_is_fresh(this_, sizeof(*this_)))
+__CPROVER_assigns(__CPROVER_object_whole(ret), gh_w_sync_calls, gh_w_sync_this)
+__CPROVER_ensures(cv_exc_pending == 0 && gh_w_sync_calls == 1 && gh_w_sync_this == (void *)this_)       /* blocks (sync) exactly once, on this awaiter ... */
+__CPROVER_ensures(OWN_PTR(ret) == this_->_owner && gh_allocs == __CPROVER_old(gh_allocs))                /* ... and then owns exactly the awaited mutex */
+;
+void h_mxaw_wait(void) { OWNT *r; MXAW *a; mxaw_wait(r, a); __CPROVER_assert(0, "SENTINEL reachable"); }
+#endif
+#ifdef CV_HAS_own_move
+void own_move(OWNT *this_, OWNT *other)
+__CPROVER_requires(cv_exc_pending == 0 && __CPROVER_is_fresh(this_, sizeof(*this_)) && __CPROVER_is_fresh(other, sizeof(*other)))
+__CPROVER_assigns(__CPROVER_object_whole(this_), __CPROVER_object_whole(other))
+__CPROVER_ensures(cv_exc_pending == 0 && OWN_PTR(this_) == __CPROVER_old(OWN_PTR(other)) && OWN_PTR(other) == 0)      /* the ownership moves: never two owner objects for one grant */
+;
+void h_own_move(void) { OWNT *a, *b; own_move(a, b); __CPROVER_assert(0, "SENTINEL reachable"); }
+#endif
+#ifdef CV_HAS_own_bool
+cv_i1 own_bool(OWNT *this_)
+__CPROVER_requires(cv_exc_pending == 0 && __CPROVER_is_fresh(this_, sizeof(*this_)))
+__CPROVER_assigns()
+__CPROVER_ensures(__CPROVER_return_value == (OWN_PTR(this_) != 0 ? 1 : 0))
+;
+void h_own_bool(void) { OWNT *a; own_bool(a); __CPROVER_assert(0, "SENTINEL reachable"); }
+#endif
